@@ -20,6 +20,8 @@ def run(chk):
     chk.rule("PRECEDE", "closed paths are cleaned before they are built, in both output modes")
     chk.rule("CONFINE", "every branch on using_polytree_ writes only owner / splits / recursive_split / polypath / OutPt::outrec (callees included)")
     chk.rule("OWNER.deepest-first", "CheckSplitOwner assigns `split` as owner only after split->splits has been searched (innermost owner)")
+    chk.rule("T.inside-vote", "Path1InsidePath2: a vertex outside / inside / on the candidate parent changes the count by +1 / -1 / 0; a count of "
+             "<= -2 answers inside, >= 2 answers outside, only -1..1 use the bounding-box midpoint fallback (10 cells)")
     chk.rule("SPLITS.append-only", "OutRec::splits lists only grow: created where there was none, appended to, emptied only after their entries were "
              "appended to another list (MoveSplits); never overwritten, swapped or erased")
     chk.rule("PLUMB", "polytree children are created from outrec->path, which only CheckBounds builds")
@@ -32,6 +34,8 @@ def run(chk):
         e10.rule_plumb(db, chk, cfg)
         e10.rule_deepest_first(db, chk, cfg)
         e10.rule_splits_append_only(db, chk, cfg)
+        from ..engines import e3_tables as e3
+        e3.inside_vote_table(db, chk, cfg)
         e6.rule_64_d(db, chk, cfg, only=("Clipper64::BuildTree64", "Clipper64::Execute"))
     n = len(cfgs)
     chk.floor("PIPELINE", 2 * n)
